@@ -314,8 +314,9 @@
         dic.resolve().unwrap();
         dic.compile(&mut cfgb.make_system()).unwrap();
         let sys = JapaneseDictionary::from_cfg(&cfgb.config()).unwrap();
-        let u1 = "ゑう,8,8,2914,ゑう,名詞,普通名詞,一般,*,*,*,ヱウ,ゑう,*,A,*,*,*,*\nゑえ,8,8,2914,ゑえ,名詞,普通名詞,一般,*,*,*,ヱエ,ゑえ,*,A,*,*,*,*\n";
-        let u2 = "ゑあ,8,8,2914,ゑあ,名詞,普通名詞,一般,*,*,*,ヱア,ゑあ,*,A,*,*,*,*\nゑい,8,8,2914,ゑい,名詞,普通名詞,一般,*,*,*,ヱイ,ゑい,*,A,*,*,*,*\nゑあゑい,8,8,-2000,ゑあゑい,名詞,普通名詞,一般,*,*,*,ヱアヱイ,ゑあゑい,*,C,U0/U1,U0/U1,U0/U1,*\n";
+        // every user dictionary declares parts of speech of its own (dictionary 1: 甲; dictionary 2: 乙 and 丙)
+        let u1 = "ゑう,8,8,2914,ゑう,甲,一,*,*,*,*,ヱウ,ゑう,*,A,*,*,*,*\nゑえ,8,8,2914,ゑえ,名詞,普通名詞,一般,*,*,*,ヱエ,ゑえ,*,A,*,*,*,*\n";
+        let u2 = "ゑあ,8,8,2914,ゑあ,乙,二,*,*,*,*,ヱア,ゑあ,*,A,*,*,*,*\nゑい,8,8,2914,ゑい,丙,三,*,*,*,*,ヱイ,ゑい,*,A,*,*,*,*\nゑあゑい,8,8,-2000,ゑあゑい,名詞,普通名詞,一般,*,*,*,ヱアヱイ,ゑあゑい,*,C,U0/U1,U0/U1,U0/U1,*\n";
         for lex in [u1, u2] {
             let mut ud = DictBuilder::new_user(&sys);
             ud.read_lexicon(lex.as_bytes()).unwrap();
@@ -342,6 +343,19 @@
                 Err(_) => if failures.len() < 10 { failures.push(format!("two user dictionaries, fields {}, mode {:?}: analysis panics", name, mode)); },
             }
         }}
+        // parts of speech that exist only in a user dictionary: every layer reports its own strings
+        for (q, dic, pos) in [("ゑう", 1, ["甲", "一", "*", "*", "*", "*"]), ("ゑあ", 2, ["乙", "二", "*", "*", "*", "*"]), ("ゑい", 2, ["丙", "三", "*", "*", "*", "*"]), ("ゑえ", 1, ["名詞", "普通名詞", "一般", "*", "*", "*"])] {
+            let r = std::panic::catch_unwind(std::panic::AssertUnwindSafe(|| {
+                let mut ms = MorphemeList::empty(&jd);
+                ms.lookup(q, InfoSubset::all()).map(|_| ms.iter().map(|m| (m.dictionary_id(), m.part_of_speech().to_vec())).collect::<Vec<_>>())
+            }));
+            let want = (dic, pos.iter().map(|x| x.to_string()).collect::<Vec<_>>());
+            match r {
+                Ok(Ok(got)) => if !got.contains(&want) && failures.len() < 10 { failures.push(format!("two user dictionaries with own parts of speech: {:?} reports (dictionary, part of speech) {:?}, declared {:?}", q, got, want)); },
+                Ok(Err(e)) => if failures.len() < 10 { failures.push(format!("two user dictionaries with own parts of speech: lookup of {:?} fails: {:?}", q, e)); },
+                Err(_) => if failures.len() < 10 { failures.push(format!("two user dictionaries with own parts of speech: lookup of {:?} panics", q)); },
+            }
+        }
         println!("verif_oracle_second_user_dictionary_units: {} failures", failures.len());
         for f in failures.iter().take(5) { println!("FAILING INPUT: {}", f); }
         assert!(failures.is_empty());
@@ -449,6 +463,16 @@
             }).collect()
         };
         let reference = analyse(&sys);
+        // the raw numbers too: every connection cost and the parameters of every word
+        let nwords = std::str::from_utf8(SYSTEM_LEX).unwrap().lines().filter(|l| !l.trim().is_empty()).count() as u32;
+        let numbers = |jd: &JapaneseDictionary| -> Vec<i32> {
+            let mut v = Vec::new();
+            let m = jd.grammar().conn_matrix();
+            for l in 0..m.num_left() as u16 { for r in 0..m.num_right() as u16 { v.push(m.cost(l, r) as i32); } }
+            for w in 0..nwords { let p = jd.lexicon().get_word_param(crate::dic::word_id::WordId::new(0, w)); v.push(p.0 as i32); v.push(p.1 as i32); v.push(p.2 as i32); }
+            v
+        };
+        let ref_numbers = numbers(&sys);
         for off in 0usize..4 {
             let mut buf = vec![0u8; s1.len() + 8];
             let base = buf.as_ptr() as usize;
@@ -458,10 +482,11 @@
             let slice: &'static [u8] = &leaked[shift..shift + s1.len()];
             let r = std::panic::catch_unwind(|| {
                 let jd = JapaneseDictionary::from_cfg_storage(&cfg, SudachiDicData::new(Storage::Borrowed(slice))).map_err(|e| format!("{:?}", e))?;
-                Ok::<_, String>(analyse(&jd))
+                Ok::<_, String>((analyse(&jd), numbers(&jd)))
             });
             match r {
-                Ok(Ok(got)) => { if let Some(i) = (0..texts.len()).find(|i| got[*i] != reference[*i]) { failures.push(format!("dictionary loaded at an address = {} modulo 4: {:?} is analysed as {:?}, from the file as {:?}", off, texts[i], got[i], reference[i])); } }
+                Ok(Ok((got, nums))) => { if nums != ref_numbers { let i = (0..nums.len()).find(|i| nums[*i] != ref_numbers[*i]).unwrap(); failures.push(format!("dictionary loaded at an address = {} modulo 4: connection cost / word parameter number {} is {}, from the file {}", off, i, nums[i], ref_numbers[i])); }
+                    if let Some(i) = (0..texts.len()).find(|i| got[*i] != reference[*i]) { failures.push(format!("dictionary loaded at an address = {} modulo 4: {:?} is analysed as {:?}, from the file as {:?}", off, texts[i], got[i], reference[i])); } }
                 Ok(Err(e)) => failures.push(format!("dictionary loaded at an address = {} modulo 4 does not load: {}", off, e)),
                 Err(_) => failures.push(format!("dictionary loaded at an address = {} modulo 4: loading or analysis panics", off)),
             }
